@@ -63,6 +63,7 @@ type attrs32 struct {
 	cFam   [3][2][2]int64 // ipv4/ipv6/reserved code, rffu!=0, rejected
 	cConn  [2][2]int64    // nonzero, rejected
 	cRT    [2]int64       // typed round trips lifetime, connection-id
+	g      gate
 }
 
 func b2i(b bool) int {
@@ -74,6 +75,11 @@ func b2i(b bool) int {
 }
 
 func (a *attrs32) violate(attr, kind string, x uint32, detail string) {
+	if a.g.full(attr + ":raw:" + kind) {
+		a.r.Violate(rep.Violation{Signature: attr + ":raw:" + kind})
+
+		return
+	}
 	a.r.Violate(rep.Violation{
 		Oracle:    "RFC layout of the 4-byte attribute: right size => denoted value or error; canonical encodings must decode",
 		Signature: attr + ":raw:" + kind,
@@ -169,6 +175,11 @@ func (a *attrs32) raw(x uint32) {
 }
 
 func (a *attrs32) rtViolate(attr, kind string, x uint32, detail string) {
+	if a.g.full(attr + ":roundtrip:" + kind) {
+		a.r.Violate(rep.Violation{Signature: attr + ":roundtrip:" + kind})
+
+		return
+	}
 	a.r.Violate(rep.Violation{
 		Oracle:    "decode(encode(v)) == v, and the encoded bytes denote v per the RFC layout",
 		Signature: attr + ":roundtrip:" + kind,
@@ -300,7 +311,7 @@ func TestC11Attrs32(t *testing.T) {
 	defer r.Write()
 	shard, nshards := rep.Shard()
 	a := &attrs32{
-		r:     r,
+		r: r, g: gate{},
 		chann: newRawMsg(wire.AttrChannelNumber), life: newRawMsg(wire.AttrLifetime), trans: newRawMsg(wire.AttrRequestedTransport),
 		fam: newRawMsg(wire.AttrRequestedFamily), conn: newRawMsg(wire.AttrConnectionID),
 		enc: stun.New(), dec: new(stun.Message),
